@@ -533,8 +533,9 @@ def finish(raw):
 class Gen(object):
   """Random predicate formulas as TEXT (so positions, parentheses, blanks, comments and `$` are real)."""
 
-  def __init__(self, rng, cols=None, unicode_ok=True):
+  def __init__(self, rng, cols=None, unicode_ok=True, user_attrs=None):
     self.rng = rng
+    self.user_attrs = user_attrs or []
     self.cols = cols or IDENT_ATTRS
     self.unicode_ok = unicode_ok
 
@@ -573,6 +574,8 @@ class Gen(object):
   def attr_chain(self):
     r = self.rng
     k = r.random()
+    if self.user_attrs and r.random() < 0.2:
+      return 'user' + r.choice(['.', '.', ' . ']) + r.choice(self.user_attrs) + r.choice(['.', '.', ' .']) + self.col()
     if k < 0.3:
       return DOLLAR + self.col()
     base = r.choice(['rec', 'rec', 'newRec', 'oldRec', 'user', 'user', 'choice', 'r', 'n', 'a'])
